@@ -66,6 +66,7 @@ def setup(rep, tier):
     rep.minimum('R02.7', 60)
     rep.minimum('R02.8', 1)
     rep.minimum('R02.9', 1)
+    rep.minimum('R02.10', 1)
 
 
 def coder_calls(f):
@@ -638,7 +639,86 @@ def r02_9(rep, prog):
     return n
 
 
+# ------------------------------------------------------------------ R02.10
+def _flag_reserve(prog, fname):
+    """bits the Opus layer requires to be left for the redundancy flag in hybrid mode: the left-hand side of the
+    `ec_tell(..) + 17 + 20*(mode == MODE_HYBRID) <= 8*len` test, with ec_tell = 0 and the mode comparison true"""
+    f = prog.fn(fname)
+    cf = cfgm.CFG(f)
+    out = []
+    for b in cf.blocks:
+        c = cf.cond(b)
+        if c is None:
+            continue
+        for x in sx.walk(c):
+            if sx.kind(x) == 'bin' and x[1] == '<=' and any(sx.kind(y) == 'call' and sx.callee_name(y) == 'ec_tell' for y in sx.walk(x[2])):
+                def res(nd):
+                    if sx.kind(nd) == 'call' and sx.callee_name(nd) == 'ec_tell':
+                        return 0
+                    if sx.kind(nd) == 'bin' and nd[1] == '==' and any(sx.int_val(sx.strip(z)) == 1001 for z in (nd[2], nd[3])):
+                        return 1                      # mode == MODE_HYBRID
+                    return None
+                v = decide.ev3(x[2], {}, res)
+                if v is not None and v > 17:
+                    out.append((v, '%s:%s' % (f.file, sx.line(x) or cf.blocks[b].get('term', {}).get('l'))))
+    return out
+
+
+def r02_10(rep, prog):
+    """a three-site contract: the Opus encoder writes, and the decoder reads, the hybrid redundancy flag only when
+    17 + 20 = 37 bits are left; the CELT encoder's VBR may shrink the packet, so its hybrid floor `min_allowed` must keep
+    those 37 bits for EVERY frame size.  The reserve of each site is evaluated from its expression (LM in 0..3 for CELT)."""
+    enc = _flag_reserve(prog, 'opus_encode_frame_native') if prog.has_fn('opus_encode_frame_native') else []
+    fdec = [f.name for f in prog.functions_all if f.file == 'src/opus_decoder.c' and any(sx.callee_name(c) == 'ec_tell' for c in f.calls())]
+    dec = [r for nm in fdec for r in _flag_reserve(prog, nm)]
+    inst = '%s:hybrid redundancy-flag reserve agrees between the Opus encoder, the Opus decoder and the CELT VBR floor' % prog.config
+    if len(enc) != 1 or len(dec) != 1:
+        rep.unresolved('R02.10', inst + ': flag tests not found (encoder %d, decoder %d)' % (len(enc), len(dec)))
+        return 0
+    if enc[0][0] != dec[0][0]:
+        rep.violated('R02.10', inst, dec[0][1], 'the encoder writes the flag with %d bits left, the decoder reads it with %d' % (enc[0][0], dec[0][0]), key='flag-reserve:enc-dec')
+        return 1
+    bits = enc[0][0]
+    f = prog.fn('celt_encode_with_ec')
+    rep.functions.add(f.name)
+    cf = cfgm.CFG(f)
+    kmin = None
+    sites = []
+    for b, i, n_ in cf.find(lambda n_: n_[0] == 'assign' and sx.kind(sx.strip(n_[1])) == 'local' and sx.strip(n_[1])[1] == 'min_allowed'):
+        g = cfgm.guards_of(cf, b)
+        if any(c is not None and pol and sx.kind(sx.strip(c)) == 'local' and sx.strip(c)[1] == 'hybrid' for c, pol, gb in g[:2]):
+            sites.append((b, i, n_))
+    if len(sites) != 1:
+        rep.unresolved('R02.10', inst + ': the hybrid floor of min_allowed was not found (%d candidates)' % len(sites))
+        return 0
+    b, i, n_ = sites[0]
+    kmin = sx.key(sx.strip(n_[1]))
+    want = (bits + 7) // 8           # bytes needed for `bits` bits (the floor rounds up)
+    bad = []
+    for LM in range(0, 4):
+        val = {kmin: 0}
+        for l in f.locals.values():
+            if l['name'] in ('tell0_frac', 'total_boost'):
+                val[('local', l['id'])] = 0
+            if l['name'] == 'LM':
+                val[('local', l['id'])] = LM
+        v = decide.ev3(n_[2], val)
+        if v is None:
+            rep.unresolved('R02.10', inst + ': cannot evaluate `%s`' % sx.show(n_[2])[:80], '%s:%s' % (f.file, sx.line(n_)))
+            return 0
+        if v != want:
+            bad.append((LM, v))
+    where = '%s:%s' % (f.file, sx.line(n_))
+    if bad:
+        rep.violated('R02.10', inst, where, 'with an empty coder the hybrid floor is %s bytes for LM=%s, but the %d bits the Opus layer tests for need %d: a VBR frame can shrink below the point where the decoder still reads the redundancy flag the encoder wrote' % (
+            [v for lm, v in bad], [lm for lm, v in bad], bits, want), key='flag-reserve:celt-floor')
+    else:
+        rep.holds('R02.10', inst, where, '%d bits at all three sites (CELT floor evaluated for LM 0..3: %d bytes)' % (bits, want))
+    return 1
+
+
 def check(rep, prog, tier):
+    r02_10(rep, prog)
     r02_9(rep, prog)
     r02_6(rep, prog)
     pt = PointsTo(prog)
